@@ -134,8 +134,19 @@ func (st *c15State) do(cs c15Case, classes ...string) {
 }
 
 func c15Generate(st *c15State) {
+	// thorough tier: several independent seeds on top of the larger per-seed counts
+	n := 1
+	if st.c.Scale > 1 {
+		n = 6
+	}
+	for k := 0; k < n; k++ {
+		c15GenerateSeed(st, st.c.Seed+uint64(k)*7919)
+	}
+}
+
+func c15GenerateSeed(st *c15State, seed uint64) {
 	c := st.c
-	r := NewRng(c.Seed)
+	r := NewRng(seed)
 
 	// ---- the pool of source spellings -------------------------------------------------------
 	type src struct {
@@ -265,7 +276,7 @@ func c15Generate(st *c15State) {
 				}
 				last = v
 				cs := c15Case{Kind: "scale", V: v, From: c15hex(s.sp.s), To: c15hex(t.s)}
-				if sampled < 3 && rf.known && v != 0 {
+				if sampled < 2 && rf.known && v > 1 && (t.class == "auto" || (t.class != "odd" && st.recognise(t.s).known && len(t.s) > 3)) && r.Chance(2) {
 					sampled++
 					c.Res.Sample(map[string]any{"kind": "scale", "v": v, "from": s.sp.s, "to": t.s})
 				}
@@ -523,9 +534,12 @@ func c15Generate(st *c15State) {
 		}
 		st.do(cs, "sp-stream:nonzero")
 	}
+	// ---- the report: values printed by `pprof -top -unit=…` ----------------------------------------
+	st.cliStream(r.Fork())
+
 	// separate stream: samples with zero values (ScaleN's sample dropping lives here, so that a
 	// finding of that stream cannot hide one of the main stream)
-	rz := NewRng(c.Seed ^ 0x5a5a5a5a)
+	rz := NewRng(seed ^ 0x5a5a5a5a)
 	for k := 0; k < 300*c.Scale; k++ {
 		cs := genSP(rz, true)
 		cs.Stream = "zeros"
